@@ -43,7 +43,7 @@ type vmPay struct {
 	events       []vmEvent
 	guards       []guardFact
 	problems     []string
-	unguarded    []string // array writes at a counter without a dominating bound check (C06)
+	unguarded    []string         // array writes at a counter without a dominating bound check (C06)
 	flags        map[string]Value // constants stored into other fields of the machine on this path (an overflow flag)
 }
 
